@@ -19,7 +19,9 @@ SEARCH = ("suite_search", {"n": {"quick": 160, "thorough": 3000}, "crash_n": {"q
 SEARCH_CRASH = ("suite_search", {"n": {"quick": 20, "thorough": 200}, "crash_n": {"quick": 8, "thorough": 150}})
 
 GRID = ("suite_grid", {"n": {"quick": 120, "thorough": 3000}})
+GRID_DISCOVER = ("suite_grid", {"n": {"quick": 320, "thorough": 5000}, "modes": ("discover",)})
 SAMPLING = ("suite_sampling", {"n": {"quick": 160, "thorough": 3000}, "subprocs": {"quick": 1, "thorough": 2}})
+SAMPLING_GROW = ("suite_sampling", {"n": {"quick": 120, "thorough": 3000}, "subprocs": 0, "modes": ("grow-random", "grow-hyperband")})
 TRANSFORMS_SMALL = ("suite_transforms", {"n": {"quick": 200, "thorough": 3000}})
 HYPERBAND_SMALL = ("suite_hyperband", {"n": {"quick": 40, "thorough": 800}})
 
@@ -158,7 +160,7 @@ PROPS = {
                           "optimiser's bound 1.0 are validated on every issued trial (type, [min, max] up to 1e-9) but not proved (float pow, scipy). "
                           + 'Spaces are modelled as parent-first lists of entries with numbered names and value lists (value code = index in the grid-ordered list: default first); the harness translates real HyperParameters objects to that form. Hypotheses of the theorems: distinct names and parents first (F16 / F10 were exactly violations of these; same-named entries under different conditions are exercised by the suites only).' + " Every issued trial of every suite is additionally checked by a direct monitor (exactly the active names, each value in its domain).",
             "assumptions": ["domain of an entry = its lattice / choices / fixed value plus its default"]},
-    "C06": {"suites": [SAMPLING, HYPERBAND_SMALL],
+    "C06": {"suites": [SAMPLING, SAMPLING_GROW, HYPERBAND_SMALL],
             "level_text": "Theorems (Ktm/Props/C06.lean): a sampled assignment is never in the tried set; giving up happens after exactly max_collisions+1 "
                           "colliding passes (structural recursion on that fuel: no loop); along every request list the start values of a sampling oracle "
                           "stay pairwise distinct; on exhaustion random search answers STOPPED, Hyperband IDLE only while trials run.",
@@ -166,7 +168,7 @@ PROPS = {
                           "The whole seeded random oracle is re-executed by the model from the logged PRNG draws. partial: growth of the space during the "
                           "search (entries reported at end_trial) is checked by the suite's grow modes, the theorem is for a fixed space. " + 'Spaces are modelled as parent-first lists of entries with numbered names and value lists (value code = index in the grid-ordered list: default first); the harness translates real HyperParameters objects to that form. Hypotheses of the theorems: distinct names and parents first (F16 / F10 were exactly violations of these; same-named entries under different conditions are exercised by the suites only).',
             "assumptions": ["hash injective on well-typed values"]},
-    "C09": {"suites": [GRID],
+    "C09": {"suites": [GRID, GRID_DISCOVER],
             "level_text": "Theorems (Ktm/Props/C09.lean): the code's odometer step is the successor function of the enumeration of active combinations; the "
                           "enumeration has no duplicates and starts with all defaults; in every reachable state (any workers, finishing order, failures, "
                           "retries) trial i carries combination i; a STOPPED answer with nothing running means the trials are exactly the enumeration.",
